@@ -79,7 +79,8 @@ DIRECTED = [
 
 def run(ctx, log):
     # the same small programs at every size around the widths the implementation encodes things in (closed-form results)
-    progcheck.run_scale(ctx, log, ['constants', 'locals'])
+    progcheck.run_scale(ctx, log, ['constants', 'locals', 'csc'])
+    progcheck.run_special_constants(ctx, log)
     # global or local placement is unobservable also where the documentation is silent (a name read in its own
     # initialiser, redeclaration that mentions the old variable): the same statements at top level and as a function body
     bodies = ["stel teller = 1; stel teller = teller + 1; teller", "stel t = 1; als ja { stel t = t * 10; t }", "stel y = y; type(y)", "stel a = 2; stel b = a + a; stel a = a * b; [a, b]",
@@ -92,6 +93,17 @@ def run(ctx, log):
         ctx.count("variant:placement-of-self-initialisers")
         if progcheck.visible(t) != progcheck.visible(w):
             ctx.violate("the same statements behave differently at top level and as the body of a function", source="functie hoofd_() { %s } hoofd_()" % b, original=b, observed=progcheck.visible(w)[:300], expected=progcheck.visible(t)[:300])
+    # prepending statements only moves code: every control-flow template at every code offset 0..620 and 1200..1500
+    offs = list(range(0, 620, 1 if not ctx.quick else 2)) + list(range(1200, 1500))
+    sweep = progcheck.layout_sweep(offs)
+    base_obs = vlib.nlh("eval", ["200000 " + vlib.hexs(src) for src, _ in progcheck.LAYOUT_TEMPLATES], tag="c10lb")
+    so = vlib.nlh("eval", ["200000 " + vlib.hexs(src) for _, _, src in sweep], tag="c10ls", timeout=600)
+    for (t_, k_, src_), o_ in zip(sweep, so):
+        ctx.seen(("layout", t_, k_))
+        ctx.count("variant:prepended-code-bytes")
+        if progcheck.visible(o_) != progcheck.visible(base_obs[t_]):
+            ctx.violate("the same construct behaves differently after %d bytes of prepended literal statements" % k_, source=src_ if len(src_) < 1500 else "(%d bytes of `ja;` statements) " % k_ + progcheck.LAYOUT_TEMPLATES[t_][0],
+                        observed=progcheck.visible(o_)[:300], expected=progcheck.visible(base_obs[t_])[:300], offset=k_)
     rng = ctx.rng
     n = 300 if ctx.quick else 5000
     srcs_a, asts_a = progcheck.gen_sources(ctx, n, max_depth=3, funcs=False)
